@@ -44,7 +44,7 @@ def nontrivial(op, res):
     return res.startswith("ok") and (b & ((1 << (63 if t[1] == "f64" else 31)) - 1)) != 0
 
 
-def post(ctx, bins):
+def post_main(ctx, bins):
     """round trip + digit bound for every feature set (this is the whole oracle for `compact`)"""
     viol = []
     n = 0
@@ -78,4 +78,29 @@ def post(ctx, bins):
                              "op": ops[i], "implementation": impl[i], "specification": "round-trips with <= %d digits" % limit,
                              "model": "-", "detail": bad})
     ctx["post_evaluations"] = n
+    return viol
+
+
+def post(ctx, bins):
+    v = post_main(ctx, bins)
+    return v + sweep_post(ctx, bins)
+
+
+def sweep_post(ctx, bins):
+    """thorough tier: every finite f32 bit pattern (both signs) against the standard library, natively (support, not proof)"""
+    if ctx["tier"] != "thorough":
+        return []
+    viol = []
+    total = 0
+    for (fs, profile), binp in sorted(bins.items()):
+        if fs not in ("default", "compact"):
+            continue
+        ops = vlib.sweep_ops("xwf", "f32", 0, 0x7f800000, 64) + vlib.sweep_ops("xwf", "f32", 0x80000000, 0xff800000, 64)
+        ops += vlib.sweep_ops("xwf", "f64", 0x3ff0000000000000, 0x3ff0000000000000 + 40000000, 16)
+        res = vlib.run_sweeps(binp, ops)
+        v, n = vlib.sweep_violations(res, fs, profile, lambda op, first: "dwf %s %s -" % (op.split(" ")[1], first))
+        viol += v
+        total += n
+    ctx["post_evaluations"] = ctx.get("post_evaluations", 0) + total
+    ctx["exhaustive_f32_write"] = total
     return viol
